@@ -209,7 +209,11 @@ func seqFns(sort string) (mk, ln, ar string) {
 }
 
 func (e *Env) ghostVal(gv *GhostVar) Val {
-	proto := e.ghostType(gv.Type)
+	e2 := *e
+	if p := e.g.ld.typesPkg(gv.Pkg); p != nil {
+		e2.pkg = p
+	}
+	proto := e2.ghostType(gv.Type)
 	key := "G|" + gv.Name
 	srt := proto.gs
 	if proto.gk == "" {
@@ -583,6 +587,34 @@ func (e *Env) call(n *CNode) Val {
 			}
 		}
 		cxFail("locked() needs a lock field expression")
+	case "mapSet":
+		a := args()
+		r := a[0]
+		r.t = fmt.Sprintf("(store %s %s %s)", a[0].t, a[1].t, a[2].t)
+		return r
+	case "setAdd":
+		a := args()
+		r := a[0]
+		r.t = fmt.Sprintf("(store %s %s true)", a[0].t, a[1].t)
+		return r
+	case "setDel":
+		a := args()
+		r := a[0]
+		r.t = fmt.Sprintf("(store %s %s false)", a[0].t, a[1].t)
+		return r
+	case "setOf":
+		// setOf(s): the set of elements of slice s (uninterpreted in the slice value and the
+		// current contents of its element heap; facts come from trusted contracts only)
+		v := e.expr(n.Args[0])
+		st, ok := v.ty.Underlying().(*types.Slice)
+		if !ok {
+			cxFail("setOf needs a slice: %s has type %v", n.Args[0].String(), v.ty)
+		}
+		es := g.sortOf(st.Elem())
+		k := g.arrKey(st.Elem())
+		fn := "|setOf!" + sanitize(es) + "|"
+		g.declareFun(fn, "(Slice (Array Int "+es+")) (Array "+es+" Bool)")
+		return Val{t: fmt.Sprintf("(%s %s (select %s (sarr %s)))", fn, v.t, g.get(e.state, k), v.t), gk: "set", ge: st.Elem(), gs: "(Array " + es + " Bool)"}
 	case "cleanRoot":
 		a := args()
 		g.declareFun("|cleanRoot|", "(String) Bool")
